@@ -1732,7 +1732,12 @@ class SpaceUpdater(SharedSpaceOperations):
                     namechain.append(set(getattr(space, attr).keys()))
                 members[attr] = set().union(*namechain)
 
-            conflict = set().intersection(*[n for n in members.values()])
+            conflict = set()
+            kinds = list(members.values())
+            while kinds:
+                names = kinds.pop()
+                for others in kinds:
+                    conflict |= names & others
             if conflict:
                 raise NameError("name conflict: %s" % conflict)
 
